@@ -80,9 +80,20 @@ fn dedup(mut v: Vec<Ov>) -> Vec<Ov> {
 
 /// run one schedule; each step is `thread * 8 + op`
 fn run_schedule(steps: &[u8], st: &mut Stats) -> Result<(), String> {
-    // known global start value, set from a throw-away thread (its local side effects die with it)
-    std::thread::spawn(te::enable).join().map_err(|_| "reset thread panicked".to_string())?;
+    run_schedule_in(steps, st, false)
+}
+
+/// `fresh_process`: this process has not touched the crate yet, so nothing is reset (whatever
+/// static state the crate keeps is in its initial condition) and the initial global setting is
+/// read from a fresh thread instead of being forced
+pub fn run_schedule_in(steps: &[u8], st: &mut Stats, fresh_process: bool) -> Result<(), String> {
     let mut global = true;
+    if fresh_process {
+        global = std::thread::spawn(te::is_enabled).join().map_err(|_| "observer thread panicked".to_string())?;
+    } else {
+        // known global start value, set from a throw-away thread (its local side effects die with it)
+        std::thread::spawn(te::enable).join().map_err(|_| "reset thread panicked".to_string())?;
+    }
     let mut chans = vec![];
     let mut handles = vec![];
     for _ in 0..2 {
@@ -247,6 +258,33 @@ fn worker(ctx: &WorkerCtx) -> Result<(), Fail> {
             }
         }
         st.class(&format!("all schedules of length <= {max_len} (this worker's share)"));
+        // the same schedules up to length max_len - 1, each in a process of its own: the crate's
+        // static state (the global flag, and whatever else an implementation keeps) is then in
+        // its initial condition, which no in-process reset can guarantee
+        let exe = std::env::current_exe().map_err(|e| Fail { case: json!({"schedule": []}), detail: format!("current_exe: {e}") })?;
+        let mut idx = 0u64;
+        let mut fresh = 0u64;
+        for len in 1..max_len {
+            for code in 0..16u64.pow(len) {
+                idx += 1;
+                if !ctx.mine(idx) {
+                    continue;
+                }
+                let steps: Vec<u8> = (0..len).map(|k| ((code >> (4 * k)) & 15) as u8).collect();
+                let hex: String = steps.iter().map(|b| format!("{b:02x}")).collect();
+                let out = std::process::Command::new(&exe).args(["c20-fresh", &hex]).output();
+                match out {
+                    Ok(o) if o.status.code() == Some(1) => {
+                        let d = String::from_utf8_lossy(&o.stdout).trim().to_string();
+                        return Err(Fail { case: json!({"schedule": steps, "fresh_process": true}), detail: format!("{d} [schedule run in a process of its own]") });
+                    }
+                    Ok(o) if o.status.success() => fresh += 1,
+                    _ => st.class("fresh-process schedule: child did not run (no verdict)"),
+                }
+            }
+        }
+        st.eval(fresh);
+        st.class_n("schedules run in a process of their own", fresh);
         if ctx.idx == 0 {
             guarded(|| free_running(ctx.tier.pick(300, 3000), &mut st)).unwrap_or_else(Err).map_err(|d| Fail { case: json!({"free_running": ctx.tier.pick(300, 3000)}), detail: d })?;
         }
@@ -260,14 +298,15 @@ fn replay(v: &Value) -> Result<(), String> {
         return free_running(r.as_u64().unwrap_or(300) as u32, &mut Stats::new());
     }
     let steps: Vec<u8> = v["schedule"].as_array().ok_or("schedule")?.iter().map(|x| x.as_u64().unwrap_or(0) as u8).collect();
-    run_schedule(&steps, &mut Stats::new())
+    // a replay runs in a process of its own anyway
+    run_schedule_in(&steps, &mut Stats::new(), v.get("fresh_process").and_then(|x| x.as_bool()).unwrap_or(false))
 }
 
 pub const C20: CheckDef = CheckDef {
     id: "C20",
     worker,
     replay,
-    rule: "schedule = sequence of (thread in {0,1}, op in {enable, disable, toggle, local_enable, local_disable, local_toggle, local_take, restore}); ALL schedules of length <= 4 (quick) / <= 5 (thorough) plus proptest schedules of length 5..40, executed on two fresh OS threads under a harness-owned interleaving with is_enabled() observed on both threads after every step, against a model of the global flag and per-thread admissible override states; plus a free-running mode under real parallelism whose invariant (view == held override; restore(take()) round trip) does not depend on the schedule. Non-trivial = both threads act and a global change happens while the other thread holds an override; distinct by schedule.",
+    rule: "schedule = sequence of (thread in {0,1}, op in {enable, disable, toggle, local_enable, local_disable, local_toggle, local_take, restore}); ALL schedules of length <= 4 (quick) / <= 5 (thorough) plus proptest schedules of length 5..40, executed on two fresh OS threads under a harness-owned interleaving with is_enabled() observed on both threads after every step, against a model of the global flag and per-thread admissible override states; the schedules of length <= 3 (quick) / <= 4 (thorough) also each in a process of its own (static state of the crate in its initial condition); plus a free-running mode under real parallelism whose invariant (view == held override; restore(take()) round trip) does not depend on the schedule. Non-trivial = both threads act and a global change happens while the other thread holds an override; distinct by schedule.",
     assumptions: &[
         "each operation performs at most one access to the single global atomic, so operation-granularity interleavings are all interleavings (as the property states)",
         "unspecified side effects (global op also setting the caller's own override; local_toggle without override; local_take clearing the override) are admitted either way and resolved by observation, so a change confined to them is not reported",
